@@ -16,7 +16,7 @@
 (***************************************************************************)
 EXTENDS Naturals, Sequences, FiniteSets, TLC
 
-CONSTANTS Subjects, MaxReq, MaxSteps
+CONSTANTS Subjects, MaxReq, MaxSteps, MaxIdp
 
 ReqIds == 1..MaxReq
 
@@ -26,32 +26,37 @@ VARIABLES
   sessions,   \* set of [subj, via]: sessions the caller established, with the request id that led to each
   lpending,   \* LogoutRequest ids the caller waits for, each with the subject being logged out
   net,        \* messages sent so far
+  nidp,       \* LogoutRequests the IdP (or the attacker posing as it) has originated so far
   hist        \* the behaviour so far (for replay against the real code)
-vars == <<nreq, pending, sessions, lpending, net, hist>>
+vars == <<nreq, pending, sessions, lpending, net, nidp, hist>>
 
 AuthnReq(i)          == [t |-> "AuthnRequest", id |-> i, by |-> "sp", irt |-> 0, subj |-> "-"]
 Resp(irt, s, by)     == [t |-> "Response", id |-> 0, by |-> by, irt |-> irt, subj |-> s]
 LogoutReq(i, s)      == [t |-> "LogoutRequest", id |-> i, by |-> "sp", irt |-> 0, subj |-> s]
 LogoutResp(irt, by)  == [t |-> "LogoutResponse", id |-> 0, by |-> by, irt |-> irt, subj |-> "-"]
+\* IdP-initiated single logout: the IdP asks the SP to end a subject's sessions; the SP answers.  by = "none" is an
+\* unsigned request (which the library decodes and returns with SignatureValidated = false: the caller must look)
+IdpLogoutReq(i, s, by) == [t |-> "IdPLogoutRequest", id |-> i, by |-> by, irt |-> 0, subj |-> s]
+SpLogoutResp(irt)      == [t |-> "SPLogoutResponse", id |-> 0, by |-> "sp", irt |-> irt, subj |-> "-"]
 
-Init == nreq = 0 /\ pending = {} /\ sessions = {} /\ lpending = {} /\ net = {} /\ hist = << >>
+Init == nreq = 0 /\ pending = {} /\ sessions = {} /\ lpending = {} /\ net = {} /\ nidp = 0 /\ hist = << >>
 Log(e) == hist' = Append(hist, e)
 
 \* the SP builds and sends an AuthnRequest (BuildAuthRequestDocument); the caller remembers its ID
 SPStart == /\ nreq < MaxReq
            /\ nreq' = nreq + 1 /\ pending' = pending \cup {nreq + 1}
            /\ net' = net \cup {AuthnReq(nreq + 1)}
-           /\ Log(<<"SPStart", nreq + 1, "-">>) /\ UNCHANGED <<sessions, lpending>>
+           /\ Log(<<"SPStart", nreq + 1, "-">>) /\ UNCHANGED <<sessions, lpending, nidp>>
 
 \* the IdP answers a request it received with a signed Response for whoever authenticated
 IdPRespond(m, s) == /\ m \in net /\ m.t = "AuthnRequest" /\ m.by = "sp"
                     /\ net' = net \cup {Resp(m.id, s, "idp")}
-                    /\ Log(<<"IdPRespond", m.id, s>>) /\ UNCHANGED <<nreq, pending, sessions, lpending>>
+                    /\ Log(<<"IdPRespond", m.id, s>>) /\ UNCHANGED <<nreq, pending, sessions, lpending, nidp>>
 
 \* the attacker sends a Response signed with its own key, answering any request id it has seen
 AttForge(i, s) == /\ i \in 1..nreq
                   /\ net' = net \cup {Resp(i, s, "att")}
-                  /\ Log(<<"AttForge", i, s>>) /\ UNCHANGED <<nreq, pending, sessions, lpending>>
+                  /\ Log(<<"AttForge", i, s>>) /\ UNCHANGED <<nreq, pending, sessions, lpending, nidp>>
 
 \* the SP consumes a Response: the library validates it (C01: only IdP-signed content is accepted) and
 \* the caller accepts it only for a request it is still waiting for (then no longer waits for it)
@@ -60,21 +65,21 @@ SPConsume(m) == /\ m \in net /\ m.t = "Response"
                 /\ IF Accepted(m) /\ m.irt \in pending
                    THEN sessions' = sessions \cup {[subj |-> m.subj, via |-> m.irt]} /\ pending' = pending \ {m.irt}
                    ELSE UNCHANGED <<sessions, pending>>
-                /\ Log(<<"SPConsume", m.irt, m.subj, m.by>>) /\ UNCHANGED <<nreq, lpending, net>>
+                /\ Log(<<"SPConsume", m.irt, m.subj, m.by>>) /\ UNCHANGED <<nreq, lpending, net, nidp>>
 
 \* the SP starts logging a session out (BuildLogoutRequestDocument with the validated NameID / SessionIndex)
 SPLogout(s) == /\ s \in sessions /\ nreq < MaxReq
                /\ nreq' = nreq + 1 /\ lpending' = lpending \cup {[id |-> nreq + 1, subj |-> s.subj]}
                /\ net' = net \cup {LogoutReq(nreq + 1, s.subj)}
-               /\ Log(<<"SPLogout", nreq + 1, s.subj>>) /\ UNCHANGED <<pending, sessions>>
+               /\ Log(<<"SPLogout", nreq + 1, s.subj>>) /\ UNCHANGED <<pending, sessions, nidp>>
 
 IdPLogoutRespond(m) == /\ m \in net /\ m.t = "LogoutRequest" /\ m.by = "sp"
                        /\ net' = net \cup {LogoutResp(m.id, "idp")}
-                       /\ Log(<<"IdPLogoutRespond", m.id, m.subj>>) /\ UNCHANGED <<nreq, pending, sessions, lpending>>
+                       /\ Log(<<"IdPLogoutRespond", m.id, m.subj>>) /\ UNCHANGED <<nreq, pending, sessions, lpending, nidp>>
 
 AttForgeLogout(i) == /\ i \in 1..nreq
                      /\ net' = net \cup {LogoutResp(i, "att")}
-                     /\ Log(<<"AttForgeLogout", i, "-">>) /\ UNCHANGED <<nreq, pending, sessions, lpending>>
+                     /\ Log(<<"AttForgeLogout", i, "-">>) /\ UNCHANGED <<nreq, pending, sessions, lpending, nidp>>
 
 \* the SP consumes a LogoutResponse: only a validated (IdP-signed) answer to a pending LogoutRequest ends sessions
 SPConsumeLogout(m) == /\ m \in net /\ m.t = "LogoutResponse"
@@ -82,8 +87,26 @@ SPConsumeLogout(m) == /\ m \in net /\ m.t = "LogoutResponse"
                          THEN LET p == CHOOSE q \in lpending : q.id = m.irt IN
                               /\ sessions' = { s \in sessions : s.subj # p.subj }
                               /\ lpending' = lpending \ {p}
-                         ELSE UNCHANGED <<sessions, lpending>>
-                      /\ Log(<<"SPConsumeLogout", m.irt, m.by>>) /\ UNCHANGED <<nreq, pending, net>>
+                         ELSE UNCHANGED <<sessions, lpending, nidp>>
+                      /\ Log(<<"SPConsumeLogout", m.irt, m.by>>) /\ UNCHANGED <<nreq, pending, net, nidp>>
+
+\* the IdP asks the SP to log a subject out (whether or not the SP has a session for it)
+IdPLogoutRequest(s) == /\ nidp < MaxIdp
+                       /\ nidp' = nidp + 1 /\ net' = net \cup {IdpLogoutReq(nidp + 1, s, "idp")}
+                       /\ Log(<<"IdPLogoutRequest", nidp + 1, s, "idp">>) /\ UNCHANGED <<nreq, pending, sessions, lpending>>
+\* the attacker does the same, signed with its own key or not signed at all
+AttForgeLogoutRequest(s, by) == /\ nidp < MaxIdp /\ by \in {"att", "none"}
+                                /\ nidp' = nidp + 1 /\ net' = net \cup {IdpLogoutReq(nidp + 1, s, by)}
+                                /\ Log(<<"AttForgeLogoutRequest", nidp + 1, s, by>>) /\ UNCHANGED <<nreq, pending, sessions, lpending>>
+\* the SP consumes a LogoutRequest (ValidateEncodedLogoutRequestPOST): only one that the library reports as
+\* signature-validated (C04, C10) ends the subject's sessions and is answered with a LogoutResponse
+\* (BuildLogoutResponseDocument) whose InResponseTo is the request's ID
+SPConsumeLogoutRequest(m) == /\ m \in net /\ m.t = "IdPLogoutRequest"
+                             /\ IF m.by = "idp"
+                                THEN /\ sessions' = { s \in sessions : s.subj # m.subj }
+                                     /\ net' = net \cup {SpLogoutResp(m.id)}
+                                ELSE UNCHANGED <<sessions, net>>
+                             /\ Log(<<"SPConsumeLogoutRequest", m.id, m.subj, m.by>>) /\ UNCHANGED <<nreq, pending, lpending, nidp>>
 
 Next == /\ Len(hist) < MaxSteps
         /\ \/ SPStart
@@ -94,6 +117,9 @@ Next == /\ Len(hist) < MaxSteps
            \/ \E m \in net : IdPLogoutRespond(m)
            \/ \E i \in ReqIds : AttForgeLogout(i)
            \/ \E m \in net : SPConsumeLogout(m)
+           \/ \E s \in Subjects : IdPLogoutRequest(s)
+           \/ \E s \in Subjects, by \in {"att", "none"} : AttForgeLogoutRequest(s, by)
+           \/ \E m \in net : SPConsumeLogoutRequest(m)
 Spec == Init /\ [][Next]_vars
 
 ---------------------------------------------------------------------------
@@ -103,7 +129,10 @@ Authentic == \A s \in sessions : Resp(s.via, s.subj, "idp") \in net /\ AuthnReq(
 NoReplay == \A s1, s2 \in sessions : s1.via = s2.via => s1 = s2
 \* nobody but the IdP can make the SP believe a logout happened
 PendingSane == \A p \in lpending : LogoutReq(p.id, p.subj) \in net
-\* sessions only ever end through SPConsumeLogout of an IdP-signed answer
+\* sessions only ever end on an IdP-signed message: its answer to a pending LogoutRequest of this SP, or its own request
 LogoutOnlyByIdP == [][(\E s \in sessions : s \notin sessions') =>
-                        \E m \in net : m.t = "LogoutResponse" /\ m.by = "idp" /\ \E p \in lpending : p.id = m.irt]_vars
+                        \/ \E m \in net : m.t = "LogoutResponse" /\ m.by = "idp" /\ \E p \in lpending : p.id = m.irt
+                        \/ \E m \in net : m.t = "IdPLogoutRequest" /\ m.by = "idp"]_vars
+\* the SP answers only requests the IdP signed, and names the request it answers
+AnswersOnlyIdP == \A m \in net : m.t = "SPLogoutResponse" => \E q \in net : q.t = "IdPLogoutRequest" /\ q.by = "idp" /\ q.id = m.irt
 =============================================================================
